@@ -15,7 +15,9 @@ into a term of the statement AST of coq/theories/Life/ImpSyntax.v:
   [await] self.<m>() / self._imp.<m>() / self._continuous.<m>()      Call O.. "<m>"
   async with <such a call>: B         WithCall O.. "<m>" B
   try: A finally: B                   TryFinally A B
+  try: A except BaseException: H      TryExcept A H       (a bare `raise` in H = Raise)
   yield                               Yield
+  await asyncio.wait_for(<tracked call>, timeout=..)   WaitFor (<that call>)
   await <anything untracked>          AwaitOther "<src>"   (still a suspension point)
 
 Statements that touch nothing tracked and contain no await/return/raise/yield (logging, local
@@ -38,6 +40,7 @@ OUTPUT = 'ImpSkeleton.v'
 SRC_IMP = 'nextline/imp.py'
 SRC_MAIN = 'nextline/main.py'
 SRC_CONT = 'nextline/continuous.py'
+SRC_MACHINE = 'nextline/fsm/machine.py'
 
 
 class SkeletonError(Exception):
@@ -60,6 +63,28 @@ CTX_DECORATORS = {'asynccontextmanager', 'contextlib.asynccontextmanager'}
 # calls of Continuous back into Nextline that are not lifecycle requests
 CONT_IGNORED = {'register', 'unregister'}
 CONT_FORBIDDEN = {'_imp', '_machine', '_lock', '_callback'}
+
+# ---- the shared rule for positions that are NOT translated (harness/HARDEN_TASK.md item 2):
+# a call there must be one of these (by its source text), `self` may occur only as `self.<known attribute>`,
+# no assert, no walrus onto anything but a local name, logger arguments contain no call
+LOGGER_CALLS = {'Imp': {'self._logger.' + l for l in ('debug', 'info', 'warning', 'error', 'exception')},
+                'Nextline': {'logger.' + l for l in ('debug', 'info', 'warning', 'error', 'exception')}}
+ALLOWED_CALLS = {
+    'Imp': {'self._hook.register', 'self._hook.unregister', 'log_loaded_plugins'},
+    'Nextline': {'getLogger', 'PdbCommand', 'TraceNo', 'PromptNo', 'ResetOptions', 'asyncio.Event', 'linecache.getlines', 'len'},
+}
+INIT_CALLS = {
+    'Imp': {'build_hook', 'PubSub[Any, Any]', 'Context', 'Callback', 'StateMachine', 'getLogger', 'asyncio.Lock'},
+    'Nextline': {'InitOptions', 'Continuous', 'Imp'},
+}
+PURE_METHODS = {'split', 'rstrip'}       # str methods on a local value
+KNOWN_SELF = {
+    'Imp': {'_hook', 'pubsub', '_context', '_init_options', '_callback', '_machine', '_logger', '_lock', '__class__'},
+    'Nextline': {'_init_options', '_continuous', '_timeout_on_exit', '_started', '_closed', '_imp', '__class__'},
+}
+FORBIDDEN_DUNDERS = {'__enter__', '__exit__', '__bool__', '__len__', '__eq__', '__hash__', '__post_init__', '__getattr__',
+                     '__getattribute__', '__setattr__', '__delattr__', '__del__', '__call__', '__await__', '__aiter__',
+                     '__anext__', '__iter__', '__next__', '__init_subclass__', '__new__', '__class_getitem__', '__set_name__'}
 
 
 def norm(node) -> str:
@@ -126,10 +151,38 @@ def method_info(fn) -> dict:
     return info
 
 
-def class_methods(tree, name: str, path: str):
+def module_check(tree, name: str, path: str, assigns: set[str]):
+    """module level: imports, `if TYPE_CHECKING:` imports, the listed plain assignments, the one class"""
+    for n in tree.body:
+        if isinstance(n, (ast.Import, ast.ImportFrom)):
+            continue
+        if isinstance(n, ast.Expr) and isinstance(n.value, ast.Constant):
+            continue
+        if isinstance(n, ast.If) and norm(n.test) == 'TYPE_CHECKING' and not n.orelse \
+                and all(isinstance(x, (ast.Import, ast.ImportFrom)) for x in n.body):
+            continue
+        if isinstance(n, ast.Assign) and norm(n) in assigns:
+            continue
+        if isinstance(n, ast.ClassDef) and n.name == name:
+            continue
+        raise SkeletonError(f'{path}:{n.lineno}: module-level statement `{norm(n)[:70]}` not recognised')
+
+
+def class_methods(tree, name: str, path: str, strict: bool = True):
     xs = [n for n in tree.body if isinstance(n, ast.ClassDef) and n.name == name]
     if len(xs) != 1:
         raise SkeletonError(f'{path}: expected exactly one class {name}')
+    if strict:
+        if xs[0].bases or xs[0].keywords or xs[0].decorator_list:
+            raise SkeletonError(f'{path}: class {name} has base classes / keywords / decorators')
+        for n in xs[0].body:
+            if isinstance(n, (ast.FunctionDef, ast.AsyncFunctionDef)):
+                continue
+            if isinstance(n, ast.Expr) and isinstance(n.value, ast.Constant):
+                continue
+            if isinstance(n, ast.AnnAssign) and n.value is None:
+                continue
+            raise SkeletonError(f'{path}:{n.lineno}: class-level statement `{norm(n)[:70]}` in class {name}')
     out = {}
     for n in xs[0].body:
         if isinstance(n, (ast.FunctionDef, ast.AsyncFunctionDef)):
@@ -232,14 +285,22 @@ class Tr:
     def awaited(self, aw: ast.Await) -> str:
         v = aw.value
         if isinstance(v, ast.Call):
-            if chain(v.func) == ('asyncio', 'wait_for') and v.args and isinstance(v.args[0], ast.Call):
-                inner = self.classify(v.args[0])
-                if inner is not None:
-                    for a in v.args[1:] + [k.value for k in v.keywords]:
-                        self.inert_expr(a, 'argument of wait_for')
-                    if inner[1] != 'await':
-                        self.err(aw, f'`{norm(v.args[0])}` is not a coroutine')
-                    return inner[0]
+            if chain(v.func) in (('asyncio', 'wait_for'), ('wait_for',), ('asyncio', 'timeout'), ('asyncio', 'shield')) \
+                    or (chain(v.func) or ('',))[-1] in ('wait_for', 'shield', 'gather', 'wait', 'create_task', 'ensure_future'):
+                # a tracked coroutine handed to an asyncio wrapper: only `await asyncio.wait_for(<tracked call>, timeout=...)`
+                if chain(v.func) != ('asyncio', 'wait_for') or not v.args or not isinstance(v.args[0], ast.Call):
+                    for a in list(v.args) + [k.value for k in v.keywords]:
+                        self.inert_expr(a, f'an argument of `{norm(v.func)}`')
+                else:
+                    inner = self.classify(v.args[0])
+                    if inner is not None:
+                        if len(v.args) > 2 or [k.arg for k in v.keywords] not in ([], ['timeout']) or len(v.args) + len(v.keywords) != 2:
+                            self.err(aw, f'`{norm(v)}`: wait_for(<call>, timeout=...) expected')
+                        for a in v.args[1:] + [k.value for k in v.keywords]:
+                            self.inert_expr(a, 'the timeout of wait_for')
+                        if inner[1] != 'await':
+                            self.err(aw, f'`{norm(v.args[0])}` is not a coroutine')
+                        return f'WaitFor {par(inner[0])}'
             r = self.classify(v)
             if r is not None:
                 if r[1] != 'await':
@@ -364,9 +425,7 @@ class Tr:
             self.target_check(st.target, None)
             return self.sync_expr(st.value)
         if isinstance(st, ast.Assert):
-            self.inert_expr(st.test, 'an assert')
-            self.inert_expr(st.msg, 'an assert')
-            return ''
+            self.err(st, 'assert in a translated method (it can raise): not recognised')
         if isinstance(st, ast.If):
             g, neg = self.guard(st.test)
             a, b = self.body(st.body), self.body(st.orelse)
@@ -381,7 +440,15 @@ class Tr:
                 if not a and not b:
                     return ''
                 return f'TryFinally {par(or_skip(a))} {par(or_skip(b))}'
-            self.all_inert(st, 'a try statement with except/else clauses')
+            if len(st.handlers) == 1 and not st.orelse and st.handlers[0].name is None \
+                    and (st.handlers[0].type is None or norm(st.handlers[0].type) == 'BaseException'):
+                a, h = self.body(st.body), self.body(st.handlers[0].body)
+                t = f'TryExcept {par(or_skip(a))} {par(or_skip(h))}' if (a or h) else ''
+                if st.finalbody:
+                    b = self.body(st.finalbody)
+                    return f'TryFinally {par(or_skip(t))} {par(or_skip(b))}' if (t or b) else ''
+                return t
+            self.all_inert(st, 'a try statement with except/else clauses other than one `except BaseException:`')
             return ''
         if isinstance(st, ast.AsyncWith):
             if len(st.items) != 1:
@@ -454,11 +521,67 @@ class Tr:
                 continue
             self.err(n, f'`{norm(n)}` is not in a recognised position (alias or unknown use of a tracked attribute)')
 
+
+    # ---- the rule for everything that is not translated
+    def ignored_pass(self, fn, init: bool = False):
+        parents = {}
+        for n in ast.walk(fn):
+            for ch in ast.iter_child_nodes(n):
+                parents[id(ch)] = n
+        allowed = ALLOWED_CALLS[self.cls] | (INIT_CALLS[self.cls] if init else set())
+        for n in ast.walk(fn):
+            if isinstance(n, ast.Assert):
+                self.err(n, 'assert not recognised (it can raise)')
+            if isinstance(n, ast.NamedExpr) and not isinstance(n.target, ast.Name):
+                self.err(n, 'walrus onto something other than a local name')
+            if isinstance(n, (ast.Lambda,)) or (n is not fn and isinstance(n, (ast.FunctionDef, ast.AsyncFunctionDef, ast.ClassDef))):
+                self.err(n, 'nested definition not recognised')
+            if isinstance(n, ast.Call):
+                src = norm(n.func)
+                if self.classify(n) is not None:
+                    continue
+                if src in LOGGER_CALLS[self.cls]:
+                    for a in list(n.args) + [k.value for k in n.keywords]:
+                        for x in ast.walk(a):
+                            if isinstance(x, (ast.Call, ast.NamedExpr, ast.Await, ast.Yield, ast.YieldFrom)):
+                                self.err(x, f'`{norm(x)}` inside the argument of a logging call')
+                    continue
+                if src == 'asyncio.wait_for':
+                    continue            # handled by awaited(): WaitFor / AwaitOther with checked arguments
+                c = chain(n.func)
+                if c is not None and tuple(c) in HARMLESS[self.cls]:
+                    continue
+                if isinstance(n.func, ast.Attribute) and n.func.attr in PURE_METHODS and chain(n.func) is None or \
+                        (isinstance(n.func, ast.Attribute) and n.func.attr in PURE_METHODS and (c or ('self',))[0] != 'self'):
+                    continue
+                if src in allowed:
+                    continue
+                self.err(n, f'call `{norm(n)[:70]}` in a position that is not translated: not in the list of calls known to be irrelevant')
+            if isinstance(n, ast.Name) and n.id == 'self':
+                par_ = parents.get(id(n))
+                if isinstance(par_, ast.Attribute) and par_.value is n:
+                    known = KNOWN_SELF[self.cls] | set(self.own)
+                    if par_.attr not in known:
+                        self.err(n, f'`self.{par_.attr}`: attribute not known to the translator')
+                    continue
+                if isinstance(par_, (ast.Yield, ast.Return)) and par_.value is n:
+                    continue
+                if isinstance(par_, ast.arg):
+                    continue
+                if init and (isinstance(par_, ast.keyword) or isinstance(par_, ast.Call)):
+                    continue            # Imp(nextline=self, ...), Continuous(self)
+                self.err(n, 'bare `self` passed on / stored (alias)')
+        a = fn.args
+        for d in list(a.defaults) + [x for x in a.kw_defaults if x is not None]:
+            if not (isinstance(d, ast.Constant) or (isinstance(d, ast.UnaryOp) and isinstance(d.operand, ast.Constant))):
+                self.err(d, f'default argument value `{norm(d)}` is not a constant')
+
     def method(self, name: str, info: dict) -> str:
         fn = info['node']
         self.where = f'{self.cls}.{name}'
         b = self.body(fn.body)
         self.leak_check(fn)
+        self.ignored_pass(fn)
         n_yield = sum(1 for n in ast.walk(fn) if isinstance(n, (ast.Yield, ast.YieldFrom)))
         if info['ctx']:
             if n_yield != 1 or tokens(b).count('Yield') != 1:
@@ -479,7 +602,9 @@ class Tr:
             if isinstance(n, (ast.Await, ast.Yield, ast.YieldFrom)):
                 self.err(n, 'await/yield in a property')
         saved = set(self.consumed)
-        self.leak_check(fn)
+        if name != '__repr__':
+            self.leak_check(fn)
+        self.ignored_pass(fn)
         self.consumed = saved
 
 
@@ -498,9 +623,20 @@ def translate_class(cls: str, methods: dict, imp: dict, cont: dict) -> list[tupl
     tr = Tr(cls, methods, imp, cont)
     out = []
     for name, info in methods.items():
-        if name in ('__init__', '__repr__'):
+        if name == '__init__':
+            tr.where = f'{cls}.__init__'
+            tr.ignored_pass(info['node'], init=True)
+            for st in info['node'].body:
+                if isinstance(st, ast.Expr) and isinstance(st.value, ast.Constant):
+                    continue
+                ok = isinstance(st, ast.Assign) and len(st.targets) == 1 and (chain(st.targets[0]) or ('',))[0] == 'self' \
+                    and len(chain(st.targets[0])) == 2
+                if not ok:
+                    raise SkeletonError(f'{cls}.__init__:{st.lineno}: statement other than `self.<name> = <value>`')
             continue
-        if info['property']:
+        if name in FORBIDDEN_DUNDERS:
+            raise SkeletonError(f'{cls}.{name}: special method not recognised')
+        if info['property'] or name == '__repr__':
             tr.weak_check(name, info)
             continue
         out.append((name, tr.method(name, info)))
@@ -512,7 +648,7 @@ def continuous_calls(path: Path) -> tuple[dict, list[tuple[str, list[str]]]]:
     for n in ast.walk(tree):
         if isinstance(n, ast.Attribute) and n.attr in CONT_FORBIDDEN:
             raise SkeletonError(f'{SRC_CONT}:{n.lineno}: `{norm(n)}`: continuous.py reaches into Imp / the state machine')
-    _, methods = class_methods(tree, 'Continuous', SRC_CONT)
+    _, methods = class_methods(tree, 'Continuous', SRC_CONT, strict=False)
 
     def direct(fn) -> list[tuple[str, str]]:
         out = []
@@ -556,13 +692,51 @@ def continuous_calls(path: Path) -> tuple[dict, list[tuple[str, list[str]]]]:
                      if name not in ('__init__', '__repr__') and not info['property']]
 
 
+def machine_info(path: Path):
+    """fsm/machine.py: `aopen`/`aclose` are exactly `await self.<trigger>()`; per callback method of the
+    StateMachine the Callback methods it awaits (a pin of the names Life/Model.v's comments rely on)"""
+    tree = ast.parse(path.read_text())
+    _, methods = class_methods(tree, 'StateMachine', SRC_MACHINE, strict=False)
+    wrappers, callbacks = [], []
+    for name, info in methods.items():
+        fn = info['node']
+        body = [st for st in fn.body if not (isinstance(st, ast.Expr) and isinstance(st.value, ast.Constant))]
+        if name in ('aopen', 'aclose'):
+            ok = info['async'] and len(body) == 1 and isinstance(body[0], ast.Expr) and isinstance(body[0].value, ast.Await) \
+                and isinstance(body[0].value.value, ast.Call) and not body[0].value.value.args and not body[0].value.value.keywords
+            c = chain(body[0].value.value.func) if ok else None
+            if not ok or c is None or len(c) != 2 or c[0] != 'self':
+                raise SkeletonError(f'{SRC_MACHINE}: StateMachine.{name} is not `await self.<trigger>()`')
+            wrappers.append((name, c[1]))
+        elif name.startswith('on_') or name == 'after_state_change':
+            called = []
+
+            def visit(n):
+                if isinstance(n, ast.Call):
+                    c = chain(n.func)
+                    if c is not None and len(c) == 3 and c[:2] == ('self', '_callback'):
+                        called.append(c[2])
+                for ch in ast.iter_child_nodes(n):
+                    visit(ch)
+
+            visit(fn)
+            callbacks.append((name, called))
+    if sorted(w[0] for w in wrappers) != ['aclose', 'aopen']:
+        raise SkeletonError(f'{SRC_MACHINE}: aopen/aclose not found')
+    return sorted(wrappers), callbacks
+
+
 def skeleton(repo: Path) -> dict:
     repo = Path(repo)
-    for p in (SRC_IMP, SRC_MAIN, SRC_CONT):
+    for p in (SRC_IMP, SRC_MAIN, SRC_CONT, SRC_MACHINE):
         if not (repo / p).exists():
             raise SkeletonError(f'{p} not found')
-    imp_cls, imp = class_methods(ast.parse((repo / SRC_IMP).read_text()), 'Imp', SRC_IMP)
-    nl_cls, nl = class_methods(ast.parse((repo / SRC_MAIN).read_text()), 'Nextline', SRC_MAIN)
+    imp_tree = ast.parse((repo / SRC_IMP).read_text())
+    nl_tree = ast.parse((repo / SRC_MAIN).read_text())
+    module_check(imp_tree, 'Imp', SRC_IMP, {'Plugin = object'})
+    module_check(nl_tree, 'Nextline', SRC_MAIN, set())
+    imp_cls, imp = class_methods(imp_tree, 'Imp', SRC_IMP)
+    nl_cls, nl = class_methods(nl_tree, 'Nextline', SRC_MAIN)
     cont, cont_calls = continuous_calls(repo / SRC_CONT)
 
     # Imp.__init__: ONE asyncio.Lock, one state machine
@@ -596,6 +770,7 @@ def skeleton(repo: Path) -> dict:
         'imp': translate_class('Imp', imp, imp, cont),
         'nextline': translate_class('Nextline', nl, imp, cont),
         'cont': cont_calls,
+        'machine': machine_info(repo / SRC_MACHINE),
     }
 
 
@@ -634,6 +809,13 @@ def translate(repo: Path) -> str:
         '    methods), in source order; register/unregister left out *)',
         'Definition continuous_calls : list (string * list string) := '
         + coq_list([f'({coq_str(n)}, [' + '; '.join(coq_str(x) for x in xs) + '])' for n, xs in sk['cont']]) + '.',
+        '',
+        f'(** {SRC_MACHINE}: `aopen` / `aclose` are `await self.<trigger>()` *)',
+        'Definition machine_wrappers : list (string * string) := ['
+        + '; '.join(f'({coq_str(a)}, {coq_str(b)})' for a, b in sk['machine'][0]) + '].',
+        '(** the Callback methods each callback of the StateMachine awaits *)',
+        'Definition machine_callbacks : list (string * list string) := '
+        + coq_list([f'({coq_str(n)}, [' + '; '.join(coq_str(x) for x in xs) + '])' for n, xs in sk['machine'][1]]) + '.',
         '',
     ]
     return '\n'.join(L)
